@@ -424,6 +424,11 @@ def special_items():
     yield Item(["Deref", "DerefMut", "AsRef", "AsMut", "Index", "IndexMut", "IntoIterator"],
                "pub struct @N@ { #[deref] #[deref_mut] #[as_ref] #[as_mut] #[index] #[index_mut] #[into_iterator(owned, ref, ref_mut)] Target: ::std::vec::Vec<u8>, Output: u8, Item: u8, IntoIter: u8 }",
                ("special", "assoc-named-fields", "none", "plain", "-"))
+    # a tuple TYPE listed for an item with a single field is one conversion source/target, not a field list
+    yield Item(["From"], "#[from((::std::net::IpAddr, u16))]\npub struct @N@(::std::net::SocketAddr);", ("special", "tuple-type-for-single-field", "none", "plain", "from"))
+    yield Item(["From", "Into"], "#[from((i32, i64))]\n#[into((i32, i64))]\npub struct @N@((i32, i64));", ("special", "tuple-type-for-single-field", "none", "plain", "from+into"))
+    yield Item(["From"], "pub enum @N@ { #[from((::std::net::IpAddr, u16))] A(::std::net::SocketAddr), B(u8) }", ("special", "tuple-type-for-single-field", "none", "plain", "from-variant"))
+    yield Item(["Into"], "pub struct @N@ { #[into((i32, i64))] a: (i32, i64), b: u8 }", ("special", "tuple-type-for-single-field", "none", "plain", "into-field"))
     # ?Sized parameters
     yield Item(["Display", "Debug"], "pub struct @N@<T: ?::core::marker::Sized>(T);", ("special", "unsized-tail", "T:?Sized", "plain", "-"))
     yield Item(["Debug"], "pub struct @N@<T: ?::core::marker::Sized> { a: u8, b: T }", ("special", "unsized-tail", "T:?Sized", "plain", "-"))
